@@ -47,4 +47,10 @@ def shapeK (l : List Acq) : Nat × Nat :=
 def kfreq (n : Nat) (center : Int) (reversed : Bool) (j : Nat) : Int :=
   if reversed then ((n - 1 - j : Nat) : Int) - center else (j : Int) - center
 
+/-- `KTrajectoryRpe`: radial position of phase-encoding step `k1` on the radial line `k2`: `k1 - centre`, shifted along
+the line by `shifts[k2 mod len]`; the k-space centre is not shifted -/
+def rpeKrad (shifts : List Rat) (centre : Int) (k1 k2 : Nat) : Rat :=
+  let r : Int := (k1 : Int) - centre
+  if r = 0 then 0 else (r : Rat) + shifts.getD (k2 % shifts.length) 0
+
 end M
